@@ -176,6 +176,23 @@ class SymMath:
         return math.sqrt(float(x))
 
 
+class _ShimIndexed(np.ndarray):
+    """what np.empty gives cloned code: `slice(...)` there builds the shim's slice objects, which a NumPy array only
+    understands once they are turned back into builtin slices (their members are concrete here)"""
+
+    def __getitem__(self, ix):
+        from .core import SymSlice
+
+        def conv(i):
+            if type(i) is SymSlice:
+                return builtins.slice(*[None if v is None else int(v) for v in (i.start, i.stop, i.step)])
+            return i
+
+        ix = tuple(conv(i) for i in ix) if isinstance(ix, tuple) else conv(ix)
+        out = np.ndarray.__getitem__(self, ix)
+        return out.view(np.ndarray) if isinstance(out, np.ndarray) else out
+
+
 class SymNp:
     """numpy proxy for cloned module globals: a handful of scalar helpers understand
     proxies; everything else is NumPy."""
@@ -187,6 +204,11 @@ class SymNp:
         if k in self._over:
             return self._over[k]
         return getattr(np, k)
+
+    @staticmethod
+    def empty(*a, **k):
+        out = np.empty(*a, **k)
+        return out.view(_ShimIndexed) if type(out) is np.ndarray and out.dtype != object else out
 
     @staticmethod
     def isnan(x):
